@@ -589,6 +589,21 @@ def part_globaltype(spec, res):
         problems.append("the healthy destination was offered %d messages, %d were logged" % (len(got), nmsg))
     res["evals"] += 1
     c = res["counters"]
+    if name != "message_type":
+        # what a report says - exception class, its text, a rendering of the affected message - is the report's own, whatever
+        # fields the application attaches to every message
+        for m in got:
+            if m.get("message_type") != "eliot:destination_failure":
+                continue
+            c["reports_judged_with_a_global_field_named_like_a_report_field"] = c.get("reports_judged_with_a_global_field_named_like_a_report_field", 0) + 1
+            if m.get("exception") != excs.qualname(excs.DestFault):
+                problems.append("with a global field named %s set, the report about a destination raising %s names the exception class %r" % (
+                    name, excs.qualname(excs.DestFault), m.get("exception")))
+            if not (isinstance(m.get("reason"), str) and m["reason"].startswith("always failing (call ")):
+                problems.append("with a global field named %s set, the report about a destination raising DestFault('always failing (call k)') gives the text %r" % (
+                    name, m.get("reason")))
+            if not (isinstance(m.get("message"), str) and "gt:m" in m["message"]):
+                problems.append("with a global field named %s set, the report's rendering of the affected message (type gt:m) is %r" % (name, m.get("message")))
     c["global_field_named_like_eliot_fields_runs"] = c.get("global_field_named_like_eliot_fields_runs", 0) + 1
     res["nontrivial"].append(h(["gt", name, nmsg, spec["i"] % 2]))
     if problems:
